@@ -305,11 +305,7 @@ Proof. exact (mat_session_wf r c ops p m). Qed.
 Print Assumptions C10_matrix_history_keeps_invariant.
 Theorem C10_matrix_history_step m o : mat_wf m -> mat_op_sizes o ->
   (mat_op_meaningful m o -> exists m', mat_step m o = Ok m' /\ mat_wf m') /\ (~ mat_op_meaningful m o -> mat_step m o = Exit).
-Proof.
-  exact (fun Hw Hs => conj (fun H => match proj1 (mat_step_spec m o Hw Hs) H with
-                                     | ex_intro _ m' E => ex_intro _ m' (conj E (mat_step_wf m o m' Hw Hs E)) end)
-                           (proj2 (mat_step_spec m o Hw Hs))).
-Qed.
+Proof. exact (mat_step_spec_wf m o). Qed.
 Print Assumptions C10_matrix_history_step.
 Theorem C10_matrix_history_memory_safe r c ops : 0 <= r -> 0 <= c -> Forall mat_op_sizes ops ->
   mat_history (mat_new r c) ops <> OOB /\ mat_history (mat_new r c) ops <> Fuel.
